@@ -313,6 +313,7 @@ REPLAYERS = {
     'c13': r_c13,
     'c07': r_c07,
     'c20': r_c20,
+    'c20_cyclic': r_c20,
     'c19': r_c19,
     'c19_exception': r_c19,
     'c19_transitivity': r_c19,
